@@ -8,7 +8,7 @@
 (*  e.c, e.block, e.w, e.cin, e.cout, e.inames (seq of input names),       *)
 (*  e.vecs (seq of seq of 0/1 aligned with inames), e.lint_exc             *)
 (***************************************************************************)
-EXTENDS CGSem, CGLint
+EXTENDS CGSem, CGLint, CGLogic
 
 NameIdx(sq, nm) == CHOOSE q \in 1..Len(sq) : sq[q] = nm
 Has(sq, nm) == \E q \in 1..Len(sq) : sq[q] = nm
@@ -78,6 +78,8 @@ Judge_logic(e) ==
      \cup (IF OutputNames(c) = io.outs THEN {} ELSE {"block_outputs"})
      \cup (IF LintClean(c) THEN {} ELSE {"block_not_lint_clean"})
      \cup (IF e.lint_exc = "" THEN {} ELSE {"cg_lint_rejects_block"})
+     \cup (IF e.w <= 3 /\ WellFormedRec(c) /\ ToNamed(c) # ModelBlock(e.block, e.w, e.cin, e.cout)
+           THEN {"DRIFT:block_differs_from_as_built_generator_model"} ELSE {})
      \cup (IF ~(WellFormedRec(c) /\ c.acyc /\ IsTopo(c)) \/ FreeNames(c) # Range(e.inames) \/ InputNames(c) # io.ins \/ OutputNames(c) # io.outs
            THEN (IF FreeNames(c) = Range(e.inames) THEN {}
                  ELSE IF Range(e.inames) = InputNames(c) THEN {"block_has_undriven_nodes"} ELSE {"MACHINERY:input_names_hint"})
